@@ -76,6 +76,10 @@ def trace_conn(ctx, conns, name, sig_prefix="", timeout=2400):
 
 def crash_check(ctx, rc, stderr, what, replay=None):
     if rc != 0:
+        first = stderr.split("\n\ngoroutine", 2)
+        crashing = first[1] if len(first) > 1 else stderr      # the stack of the goroutine that died
+        if ("panic:" in stderr or "fatal error:" in stderr) and "cuteLittleDevil/go-jt808/" not in crashing and "fatal error:" not in stderr:
+            raise vlib.ToolFailure("the harness itself panicked in %s:\n%s" % (what, stderr[-2500:]))
         if "panic:" in stderr or "fatal error:" in stderr or "WARNING: DATA RACE" in stderr:
             ctx.violation(panic_signature(stderr), "%s: child exit %d\n%s" % (what, rc, stderr[-1500:]), replay or {"kind": what})
             return True
